@@ -25,7 +25,9 @@ CLAIM = {
             "an outpoint created and spent inside one block nets out; (R14.8) both streamed block-end callbacks take "
             "the per-block decode state on every exit; (R14.9) a restart re-registers each ready channel's monitor "
             "with the stored ListenSlot as one value (restore_listener), never with a freshly built slot, before the "
-            "channel is published. Does not decide "
+            "channel is published; (R14.10) add_block keeps a header window of exactly MAX_REORG_SIZE entries (truncate "
+            "to MAX - 1 before pushing the old tip, or to MAX after), so that a reorg of any depth inside the window can "
+            "be disconnected. Does not decide "
             "equality with a fresh replay over all block histories nor general panic-freedom.",
     "note": "rustc MIR; symmetry is compared per match arm over field writes, mutator calls and Vec::push sites "
             "including closures called from the arm",
@@ -55,6 +57,7 @@ def run(ctx):
     r147(ctx)
     r148(ctx)
     r149(ctx)
+    r1410(ctx)
 
 
 def arms(ctx, body, variants):
@@ -518,3 +521,38 @@ def r149(ctx):
             ctx.ob("R14.9", bool(rlb) and not esc, f"{b.name}/ready-channel-needs-listener",
                    "a restored ready channel can be published without its monitor having been re-registered with the stored slot",
                    where=f"{bb.file}:{bb.term(esc[0]).line if esc else bb.line}", sample="channels.insert dominated by restore_listener")
+
+
+def r1410(ctx):
+    ctx.rule("R14.10", "the header window kept by add_block holds MAX_REORG_SIZE headers: every disconnect inside the window "
+                       "finds its previous header (truncate(MAX_REORG_SIZE - 1) before push_front, or truncate(MAX_REORG_SIZE) after)")
+    from engine import atoms
+    p = ctx.prog
+    b = p.fn(LS + "chain::tracker::ChainTracker::<L>::add_block")
+    fv = fnview(ctx, b)
+    tr = [(bi, c) for bi, c in b.calls() if c.callee and c.callee.name.endswith("VecDeque::<T, A>::truncate")
+          and R.mentions_field(fv.expr(c.args[0]), "ChainTracker", "headers")]
+    pf = [(bi, c) for bi, c in b.calls() if c.callee and c.callee.name.endswith("VecDeque::<T, A>::push_front")
+          and R.mentions_field(fv.expr(c.args[0]), "ChainTracker", "headers")]
+    ctx.floor("R14.10", "headers.push_front in add_block", len(pf), 1)
+    ctx.ob("R14.10", len(tr) == 1 and len(pf) == 1, f"{b.name}/window-maintained",
+           f"add_block has {len(tr)} headers.truncate and {len(pf)} headers.push_front calls (expected one each)",
+           where=f"{b.file}:{b.line}", sample="one truncate, one push_front")
+    mx = [v for k, (v, ty) in p.consts.items() if p.defs[k].name.endswith("ChainTracker::<L>::MAX_REORG_SIZE")]
+    if not mx and tr:
+        mx = [x[1] for x in subexprs(fv.expr(tr[0][1].args[1])) if x[0] == "int" and len(x) > 2 and x[2].endswith("MAX_REORG_SIZE")]
+    if not mx:
+        raise R.Broken("C14/R14.10: anchor missing: value of ChainTracker::MAX_REORG_SIZE")
+    if len(tr) == 1 and len(pf) == 1 and mx:
+        (tb, tc), (pb, pc) = tr[0], pf[0]
+        lin = atoms.linear(fv.expr(tc.args[1]))
+        # the bound is MAX_REORG_SIZE + c (the constant is folded into an integer by the compiler's constant evaluation)
+        k = lin[1] if not lin[0] else None
+        before = pb not in fv.reach(0, cut_nodes={tb})           # truncate dominates the push
+        after = tb not in fv.reach(0, cut_nodes={pb})            # push dominates the truncate
+        window = (k + 1) if (k is not None and before) else (k if (k is not None and after) else None)
+        ctx.ob("R14.10", window == mx[0], f"{b.name}/window-size",
+               f"after add_block the header window holds at most {window} headers (truncate({k}) {'before' if before else 'after'} "
+               f"push_front), MAX_REORG_SIZE is {mx[0]}: a reorg of depth {mx[0]} inside the window cannot be disconnected "
+               "(remove_block answers ReorgTooDeep and the protocol handler aborts)", where=f"{b.file}:{tc.line}",
+               sample=f"window {mx[0]}")
